@@ -130,7 +130,17 @@ fn run<T: CoordNum + GeoNum>(c: &Case, obs: &mut Obs, fwd: &dyn Fn(i64) -> T, ba
                 if !degenerate {
                     check_ring(&format!("{name}:{tname}"), &ring, back, &c.pts, &want, obs, &ctx);
                 } else {
+                    // fewer than three non-collinear inputs: the statement promises no ring structure, but the hull still
+                    // "contains the input" (title; the quantifier lists these inputs): its vertices are input coordinates
+                    // and every input coordinate lies on the (flat) ring
                     obs.cmp();
+                    let hv: Vec<C> = ring.0.iter().map(|q| back(*q)).collect();
+                    let inputs: BTreeSet<C> = c.pts.iter().cloned().collect();
+                    obs.expect(hv.iter().all(|v| inputs.contains(v)), &format!("{name}:{tname}|degenerate|vertex-not-an-input"), || format!("{:?}; {}", hv, ctx()));
+                    if !c.pts.is_empty() {
+                        let covered = |p: &C| hv.iter().any(|v| v == p) || hv.windows(2).any(|w| crate::exact::on_segment_int(w[0], w[1], *p));
+                        obs.expect(c.pts.iter().all(covered), &format!("{name}:{tname}|degenerate|input-not-on-hull"), || format!("{:?}; {}", hv, ctx()));
+                    }
                 }
             }
             Err(p) => obs.fail(format!("{name}:{tname}|panic|{}", p.site()), format!("{} {}", p, ctx())),
